@@ -141,7 +141,9 @@ fn hostile_dir_case(sink: &mut Sink, r: &mut Rng, pool: &[KeyInfo], forced: Opti
             };
             let name = format!("{}.{}.link", st, prefix);
             let kid_weird = format!("aaaaaaa\u{e9}{}", "b".repeat(55));
-            let body: Vec<u8> = match r.below(8) {
+            let body: Vec<u8> = match r.below(9) {
+                8 => format!("{{\"signatures\":[],\"signed\":{{\"_type\":\"layout\",\"expires\":\"{}\",\"readme\":\"\",\"keys\":{{}},\"inspect\":[],\"steps\":[]}}}}",
+                    r.pick(&["9999-12-31T23:59:59Z", "0000-01-01T00:00:00Z", "2262-04-12T00:00:00Z", "1677-09-20T00:00:00Z", "9999-12-31T23:59:60-23:59"])).into_bytes(),
                 0 => vec![],
                 1 => b"{".to_vec(),
                 2 => vec![0xff, 0xfe, 0x00],
@@ -401,6 +403,16 @@ pub fn run(cfg: &Cfg) {
     for num in ["18446744073709551615", "18446744073709551616", "-9223372036854775809", "1e400", "-0", "4294967296", "1.5"] {
         let doc = format!("{{\"_type\":\"layout\",\"expires\":\"2030-01-01T00:00:00Z\",\"readme\":\"\",\"keys\":{{}},\"inspect\":[],\"steps\":[{{\"_type\":\"step\",\"threshold\":{},\"name\":\"s\",\"expected_materials\":[],\"expected_products\":[],\"pubkeys\":[],\"expected_command\":[]}}]}}", num);
         feed_all_parsers(&mut sink, doc.as_bytes());
+    }
+    // extreme but representable dates (RFC 3339 years 0000-9999, leap seconds, offsets that cross the ends)
+    for date in ["0000-01-01T00:00:00Z", "0001-01-01T00:00:00Z", "1677-09-21T00:12:43Z", "1677-09-21T00:12:44Z", "1901-12-13T20:45:51Z", "1969-12-31T23:59:59.999999999Z",
+        "2038-01-19T03:14:08Z", "2262-04-11T23:47:16Z", "2262-04-11T23:47:17Z", "9999-12-31T23:59:59Z", "9999-12-31T23:59:60Z", "9999-12-31T23:59:59-23:59",
+        "0000-01-01T00:00:00+23:59", "2016-12-31T23:59:60Z", "2016-12-31T23:59:60.999999999+14:00"] {
+        let layout = format!("{{\"_type\":\"layout\",\"expires\":\"{}\",\"readme\":\"\",\"keys\":{{}},\"inspect\":[],\"steps\":[]}}", date);
+        feed_all_parsers(&mut sink, layout.as_bytes());
+        feed_all_parsers(&mut sink, format!("{{\"signatures\":[],\"signed\":{}}}", layout).as_bytes());
+        let pred = format!("{{\"builder\":{{\"id\":\"b\"}},\"metadata\":{{\"buildStartedOn\":\"{}\",\"buildFinishedOn\":\"{}\"}}}}", date, date);
+        feed_all_parsers(&mut sink, pred.as_bytes());
     }
     // ---- hostile link directories
     let nd = if cfg.thorough { 1500 } else { 120 };
